@@ -142,7 +142,7 @@ func H_C14_FrostDerive() {
 	cur := fieldKeygen(ids, t)
 	depth := vsym.Param("depth", 2)
 	for d := 0; d < depth; d++ {
-		idx := vsym.Uint32("index")
+		idx := vsym.Uint32([]string{"index0", "index1", "index2", "index3"}[d])
 		vsym.Assume(idx < 1<<31)
 		parent := cur[ids[0]]
 		// BIP-32 CKDpub written out: I = HMAC-SHA512(key = chain code, data = serP(K) || ser32(i))
